@@ -334,7 +334,13 @@ class DirectCollocation(SamplingMethod):
             for k in range(self.N):
                 for i, e in enumerate(self.Zc[k]):
                     e_shape = e[algs[var],:].shape
-                    value = DM(opti.debug.value(hcat([self.eval_at_integrator_root(stage, expr, k, i, j) for j in range(e_shape[1])]), opti_initial))                    
+                    if is_numeric(expr) and DM(expr).numel()>var.numel() and DM(expr).numel() in [var.numel()*self.N, var.numel()*(self.N+1)]:
+                        # n-by-N or n-by-(N+1) array guess: column k applies to control interval k
+                        v = ca.evalf(expr)
+                        if v.is_column() and var.is_scalar(): v = v.T
+                        value = repmat(v[:,k], 1, e_shape[1])
+                    else:
+                        value = DM(opti.debug.value(hcat([self.eval_at_integrator_root(stage, expr, k, i, j) for j in range(e_shape[1])]), opti_initial))
                     opti.set_initial(e[algs[var],:], value)
 
     def to_function(self, stage, name, args, results, *margs):
